@@ -63,7 +63,7 @@ def as_ints(p):
     for rec in p["streams"] + p.get("utilities", []):
         for k in UNITS:
             v = rec.get(k)
-            if isinstance(v, float) and v.is_integer():
+            if isinstance(v, float) and v.is_integer() and not (v == 0 and math.copysign(1.0, v) < 0):  # -0.0 has no integer spelling
                 rec[k] = int(v)
     return p
 
@@ -110,7 +110,7 @@ def has_blanks(prob):
 
 
 def _cell(x, ints):
-    if isinstance(x, float) and ints and x.is_integer():
+    if isinstance(x, float) and ints and x.is_integer() and not (x == 0 and math.copysign(1.0, x) < 0):
         return int(x)
     return x
 
@@ -341,7 +341,10 @@ class C16(World):
                     rec["t_target"] = round(rec["t_target"] - shift, 3)
             hostile = swarm["hostile"] and pr.random() < 0.7
             zpool = HOSTILE_ZONES if hostile else SAFE_ZONES
-            if hostile and pr.random() < 0.3:
+            if hostile and pr.random() < 0.2:
+                # zone names that differ only by letter case (sheet titles are case-insensitive)
+                zpool = ["Unit A", "UNIT A", "unit a", "Unit a", "Überhitzer", "überhitzer"]
+            elif hostile and pr.random() < 0.3:
                 # a family of zones that agree in their first 31 characters (sheet names collide after truncation);
                 # needs enough streams to populate >= 5 zones
                 zpool = LONG_FAMILY
